@@ -29,6 +29,9 @@ func kfColor(args []KeyBuilderStage) (KeyBuilderStage, error) {
 	}), nil
 }
 
+// Upper bound of the length of a {repeat} result
+const maxRepeatLen = 1 << 30
+
 // {repeat c {count}}
 func kfRepeat(args []KeyBuilderStage) (KeyBuilderStage, error) {
 	if len(args) != 2 {
@@ -44,6 +47,10 @@ func kfRepeat(args []KeyBuilderStage) (KeyBuilderStage, error) {
 		count, err := strconv.Atoi(args[1](context))
 		if err != nil {
 			return ErrorNum
+		}
+		// strings.Repeat panics on a negative count and on a result that cannot be allocated
+		if count < 0 || (len(char) > 0 && count > maxRepeatLen/len(char)) {
+			return ErrorValue
 		}
 		return strings.Repeat(char, count)
 	}), nil
